@@ -256,6 +256,11 @@ def standard_check_after_real(ctx, cases, prop, kinds, component, monitor, extra
             ctx.violation(desc + " (opts %r)" % d["opts"], c.replay_obj(), signature=sig)
             if not sig.startswith("known:"):
                 continue
+        if stateful(c.world) and c.opts.get("repeat", 1) > 1:
+            # outcomes that depend on state surviving the iterations: the model repeats one script per test;
+            # such runs are decided by the monitors alone
+            ctx.bump("stateful-monitor-only")
+            continue
         if not compare_traces(ctx, c, kinds, component):
             continue
         if extra:
@@ -276,4 +281,32 @@ def test_ops(ctx, world):
         d["op"] = "proto"
         return d
     ans = ctx.driver.batch([tj(t) for t in world["tests"]])
-    return {t["id"]: a["ops"] for t, a in zip(world["tests"], ans)}
+    ops = {t["id"]: a["ops"] for t, a in zip(world["tests"], ans)}
+    # tests with parts that raise only the first time they run in a process: the calm variant for later runs
+    flaky = [t for t in world["tests"] if is_flaky(t)]
+    if flaky:
+        calm = ctx.driver.batch([tj(calm_variant(t)) for t in flaky])
+        for t, a in zip(flaky, calm):
+            ops[(t["id"], "calm")] = a["ops"]
+    return ops
+
+
+def parts_of(t):
+    return [t["setUp"], t["body"], t["tearDown"]] + list(t["subs"]) + list(t["cleanups"])
+
+
+def is_flaky(t):
+    return any(p.get("once") and p.get("exc") for p in parts_of(t))
+
+
+def calm_variant(t):
+    import copy
+    c = copy.deepcopy(t)
+    for p in parts_of(c):
+        if p.get("once"):
+            p["exc"] = None
+    return c
+
+
+def stateful(world):
+    return any(is_flaky(t) for t in world["tests"])
